@@ -142,13 +142,16 @@ def _ensure(log, need_native):
         times['harness_smir_s'] = _run(base + RUSTC_SMIR + _nonce(), HARNESS, env, os.path.join(hdir, 'h.smir'), 'harness stable-mir dump')
         if os.path.getsize(os.path.join(hdir, 'h.mir')) < 1000:
             raise BuildError('empty harness dump')
+        times['harness_rustdoc_s'] = _run(['cargo', '+' + NIGHTLY, 'rustdoc', '--offline', '--lib', '--', '-Zunstable-options', '--output-format', 'json',
+                                           '--document-private-items'], HARNESS, env, None, 'harness rustdoc json')
+        shutil.copyfile(os.path.join(tn, 'doc', 'litep2p_verif_harness.json'), os.path.join(hdir, 'hrd.json'))
         open(os.path.join(hdir, 'ok'), 'w').write(hh)
     if need_native and not os.path.exists(os.path.join(hdir, 'replay-dev')):
         _native(hdir, ts, times, log, 'dev')
     if need_native == 'release' and not os.path.exists(os.path.join(hdir, 'replay-release')):
         _native(hdir, ts, times, log, 'release')
     return dict(lmir=os.path.join(ldir, 'l.mir'), lsmir=os.path.join(ldir, 'l.smir'), rd=os.path.join(ldir, 'rd.json'),
-                hmir=os.path.join(hdir, 'h.mir'), hsmir=os.path.join(hdir, 'h.smir'),
+                hmir=os.path.join(hdir, 'h.mir'), hsmir=os.path.join(hdir, 'h.smir'), hrd=os.path.join(hdir, 'hrd.json'),
                 deps={d.replace('-', '_'): os.path.join(ldir, d.replace('-', '_') + '.mir') for d in DEP_CRATES},
                 replay_dev=os.path.join(hdir, 'replay-dev'), replay_release=os.path.join(hdir, 'replay-release'),
                 repo_hash=rh, harness_hash=hh, times=times)
